@@ -14,6 +14,11 @@ Families
              property apply (they need no condition on the weights); the correspondence is compared in full
   uncovered  a feasible constraint that is always satisfied and mentions a variable occurring nowhere else
              (the library adds no penalty, so the variable is unknown to the model's bookkeeping)
+  deep       objectives with n = 5..6 and terms of degree 3..5 sharing two disjoint variable pairs (degree reduction
+             reuses ancillas, also inside keys where both pairs are already replaced), constraints with few slack bits
+  variants   scenarios: a base model with constraints; variants derived by copy() / the constructor / + 0 / * 1 / - 0 /
+             + 3 / 2 * H; further constraints, mostly of a kind already recorded, added to base and variants in
+             interleaved order; every model of the scenario is checked in full against its own history
 
 Correspondence (model = lean/Qv/Model/Workflow.lean through op "wf", plus ops "c04sol", "cons", "c04conv"):
   build      PCBO: the state after PCBO(objective) and after every constraint call (terms, num_ancillas, recorded
@@ -40,14 +45,15 @@ RULE = ("objective: 2..5 terms of degree <= 3 over n in 2..4 variables (every va
         "coefficients; 1..3 jointly feasible constraints: comparison (6 relations, linear/quadratic integer polynomials, "
         "log_trick on/off) and for PCBO logical (16 methods, label and nested-gate operands); weights = (max f - min f) + "
         "{1/4,1/2,1,3} (family big) or {1/4,1/2,1} (family small); PCBO and PCSO; 4 label realisations; forms: the model "
-        "itself, to_pubo, to_puso, to_qubo, to_quso (total variables <= 14, larger forms are counted as skipped). "
+        "itself, to_pubo, to_puso, to_qubo, to_quso (total variables <= 16, larger forms are counted as skipped). "
+        "family deep: n = 5..6, objective terms of degree 3..5 sharing two disjoint pairs (reused reduction ancillas), few slack bits, forms up to 16 variables; family variants: scenarios of a base model and up to two models derived by copy() / constructor / +0 / *1 / -0 / +3 / 2*H with further, mostly same-kind, constraints added to all of them in interleaved order, every model checked in full. "
         "non-trivial = at least one constraint is violated by some assignment and the model has >= 1 penalty term; "
         "distinct = distinct case JSON")
 ASSUMPTIONS = ["integer-valued constraint polynomials; coefficients int / Fraction (PCSO conversions divide by 2: dyadic floats, exact)",
                "every variable of the workflow occurs in the objective (families big, small); the family 'uncovered' "
                "drops exactly this"]
 
-MAXVARS = 14
+MAXVARS = 16
 RELS = ["eq", "ne", "lt", "le", "gt", "ge"]
 GATES = ["AND", "OR", "XOR", "NAND", "NOR", "XNOR", "NOT", "BUFFER"]
 
@@ -158,6 +164,62 @@ def gen_logic(rng, n):
 
 MAXH = 10
 
+def gen_deep(rng):
+    """higher-degree objectives: n = 5..6, terms of degree 3..5 built from two disjoint variable pairs so that degree
+    reduction reuses ancillas (also in keys where both pairs were already replaced); constraints with few slack bits"""
+    for _ in range(300):
+        kind = "PCBO" if rng.random() < 0.85 else "PCSO"
+        spin = kind == "PCSO"
+        n = rng.choice([5, 5, 6])
+        vs = list(range(n)); rng.shuffle(vs)
+        p1, p2, rest = sorted(vs[:2]), sorted(vs[2:4]), vs[4:]
+        keys = [p1 + [rng.choice(rest)], p2 + [rng.choice(rest)], p1 + p2]
+        if rng.random() < 0.5:
+            keys.append(p1 + p2 + [rng.choice(rest)])
+        if rng.random() < 0.5:
+            keys.append(rng.choice([p1, p2]) + rest[:2] if len(rest) >= 2 else p1 + [rest[0]])
+        rng.shuffle(keys)
+        obj, seen = [], set()
+        for i in rng.sample(range(n), rng.randint(0, 2)):
+            obj.append([[i], rng.choice(["-2", "-1", "1", "2"])]); seen.add((i,))
+        for k in keys:
+            k = tuple(sorted(set(k)))
+            if k not in seen:
+                seen.add(k); obj.append([list(k), rng.choice(["-4", "-3", "-2", "2", "3", "4"])])
+        used = {i for k, _ in obj for i in k}
+        for i in range(n):
+            if i not in used:
+                obj.append([[i], rng.choice(["-1", "1"])])
+        if rng.random() < 0.5:
+            rng.shuffle(obj)
+        steps = []
+        for _ in range(rng.choice([1, 1, 2])):
+            r = rng.random()
+            if not spin and r < 0.35:
+                steps.append(gen_logic(rng, n))
+            else:
+                a, b = rng.sample(range(n), 2)
+                tmpl = rng.choice([
+                    {"rel": "le", "P": [[[a], "1"], [[b], "1"], [[], "-1"]]},          # special: no slack
+                    {"rel": "eq", "P": [[[a], "1"], [[b], "-1"]]},
+                    {"rel": "ge", "P": [[[a], "1"], [[b], "1"], [[], "-1"]]},
+                    {"rel": "ne", "P": [[[a], "1"], [[b], "1"], [[], "-1"]]},
+                    {"rel": "lt", "P": [[[a], "1"], [[b], "1"], [[], "-2"]]},
+                    {"rel": "le", "P": [[[a], "2"], [[b], "1"], [[], "-2"]]}])
+                steps.append(dict({"t": "cmp", "lt": rng.random() < 0.5, "lo": None, "hi": None, "sup": False}, **tmpl))
+        case = {"family": "deep", "kind": kind, "n": n, "obj": obj, "steps": steps, "labels": rng.choice(Labels.STYLES)}
+        xs, f, feas = semantics(case)
+        if not any(feas.values()):
+            continue
+        R = max(f.values()) - min(f.values())
+        for st in steps:
+            st["lam"] = fs(R + rng.choice([Fraction(1, 2), Fraction(1), Fraction(3)]))
+        case["big"] = True
+        if model_size(case) > MAXH:
+            continue
+        return case
+    raise Infra("generator found no feasible deep workflow")
+
 def model_size(case):
     """number of variables (with ancillas) of the model the real code builds — used only to reject large cases"""
     import qubovert as qv
@@ -259,6 +321,12 @@ def run_impl(case):
             return info
         warns += ws
         states.append(state_of(H, L, n, warns, spin))
+    collect(H, L, info)
+    return info
+
+def collect(H, L, info):
+    """everything the checks read off a finished model object"""
+    info["H"], info["L"] = H, L
     info["book"] = {"n": int(H.num_binary_variables), "rm": [[int(i), L.ident(l)] for i, l in H._reverse_mapping.items()]}
     info["mapping"] = [[L.ident(l), int(i)] for l, i in H.mapping.items()]
     info["terms"] = [[L.ids(k), fs(v)] for k, v in H.items()]
@@ -280,6 +348,134 @@ def run_impl(case):
             forms[t] = {"obj": None, "canon": {"err": exc_name(e)}}
     info["forms"] = forms
     return info
+
+# ------------------------------------------------------------------ scenario variants: copies / arithmetic of a model
+
+DERIVE = ["copy", "ctor", "+0", "*1", "-0", "+k", "*2"]
+
+def derive(H, op):
+    import qubovert as qv
+    if op == "copy":
+        return H.copy()
+    if op == "ctor":
+        return type(H)(H)
+    if op == "+0":
+        return H + 0
+    if op == "*1":
+        return H * 1
+    if op == "-0":
+        return H - 0
+    if op == "+k":
+        return H + 3
+    if op == "*2":
+        return 2 * H
+    raise ValueError(op)
+
+def derive_desc(obj, steps, op):
+    """the description (objective, history of constraints) of the derived model"""
+    obj = [[list(k), v] for k, v in obj]
+    steps = [dict(st) for st in steps]
+    if op == "+k":
+        d = {}
+        for k, v in obj + [[[], "3"]]:
+            d[tuple(k)] = d.get(tuple(k), 0) + Fraction(v)
+        obj = [[list(k), fs(v)] for k, v in d.items() if v != 0]
+    elif op == "*2":
+        obj = [[k, fs(2 * Fraction(v))] for k, v in obj]
+        for st in steps:
+            st["lam"] = fs(2 * Fraction(st["lam"]))       # every penalty is linear in its weight
+    return obj, steps
+
+def gen_scenario(rng, family="variants"):
+    """a base model with constraints, variants derived through copy() / the constructor / arithmetic, and further
+    constraints — mostly of a kind already present — added to base and variants in interleaved order"""
+    for _ in range(300):
+        base = gen_case(rng, "big" if rng.random() < 0.75 else "small")
+        spin = base["kind"] == "PCSO"
+        n = base["n"]
+        models = [{"obj": base["obj"], "steps": list(base["steps"])}]        # descriptions, by creation order
+        script = [["add", 0, st] for st in base["steps"]]
+        rels = [st["rel"] for st in base["steps"] if st["t"] == "cmp"]
+        for _ in range(rng.choice([2, 3, 3, 4, 5])):
+            if len(models) < 3 and (len(models) == 1 or rng.random() < 0.35):
+                par = rng.randrange(len(models)); op = rng.choice(DERIVE)
+                o, stp = derive_desc(models[par]["obj"], models[par]["steps"], op)
+                models.append({"obj": o, "steps": stp})
+                script.append(["derive", par, op])
+            else:
+                tgt = rng.randrange(len(models))
+                if not spin and rng.random() < 0.3:
+                    st = gen_logic(rng, n)
+                else:
+                    st = gen_cmp(rng, n, spin)
+                    if rels and rng.random() < 0.75:
+                        st["rel"] = rng.choice(rels)
+                    rels.append(st["rel"])
+                xs = list(itertools.product(domain(spin), repeat=n))
+                fv = [poly_value(models[tgt]["obj"], x) for x in xs]
+                R = max(fv) - min(fv)
+                st["lam"] = fs(R + rng.choice([Fraction(1, 4), Fraction(1), Fraction(3)])) if base["big"] else \
+                    fs(rng.choice([Fraction(1, 4), Fraction(1, 2), Fraction(1)]))
+                models[tgt]["steps"].append(st)
+                script.append(["add", tgt, st])
+        if len(models) < 2:
+            continue
+        case = {"family": family, "kind": base["kind"], "n": n, "labels": base["labels"], "obj": base["obj"],
+                "script": script}
+        subs = sub_cases(case)
+        ok = True
+        for sc in subs:
+            xs, f, feas = semantics(sc)
+            if not any(feas.values()) or model_size(sc) > MAXH:
+                ok = False
+        if ok:
+            return case
+    raise Infra("generator found no feasible scenario")
+
+def sub_cases(case):
+    """the description of every model of a scenario: its objective and its own history of constraints"""
+    models = [{"obj": case["obj"], "steps": []}]
+    for ev in case["script"]:
+        if ev[0] == "add":
+            models[ev[1]]["steps"].append(ev[2])
+        else:
+            o, stp = derive_desc(models[ev[1]]["obj"], models[ev[1]]["steps"], ev[2])
+            models.append({"obj": o, "steps": stp})
+    out = []
+    for i, m in enumerate(models):
+        out.append(finalize({"family": case["family"], "kind": case["kind"], "n": case["n"], "labels": case["labels"],
+                             "obj": m["obj"], "steps": m["steps"], "model": i}))
+    return out
+
+def run_scenario(case):
+    """executes the script on the real code; returns one info per model (final objects only)"""
+    import qubovert as qv
+    L = Labels(case["labels"])
+    spin = case["kind"] == "PCSO"
+    objs = [getattr(qv, case["kind"])({L.key(k): num_of(v) for k, v in case["obj"]})]
+    err = None
+    try:
+        for ev in case["script"]:
+            if ev[0] == "add":
+                r, _ = call_step(objs[ev[1]], ev[2], L)
+                if r is not objs[ev[1]]:
+                    err = "add_constraint did not return self"
+            else:
+                objs.append(derive(objs[ev[1]], ev[2]))
+                if type(objs[-1]) is not type(objs[0]):
+                    err = "derived model has type %s" % type(objs[-1]).__name__
+    except Exception as e:
+        err = exc_name(e) + ": " + str(e)[:100]
+    infos = []
+    for H in objs:
+        info = {"H": H, "L": L, "states": None}
+        if err:
+            info["build_error"] = err
+        else:
+            info["final"] = dict(state_of(H, L, case["n"], [], spin), warns=None)
+            collect(H, L, info)
+        infos.append(info)
+    return infos
 
 # ------------------------------------------------------------------ direct oracle (truth tables on the real objects)
 
@@ -488,7 +684,21 @@ def compare(ctx, case, info, m):
     if "driver_error" in m:
         ctx.diff("driver", case, None, m); return
     spin = case["kind"] == "PCSO"
-    if not spin:
+    if info.get("states") is None:
+        # scenario model: only the finished object exists; compare it with the model's run of its own history
+        if spin:
+            fin = m.get("final", {})
+            mf = {"err": fin["err"]} if "err" in fin else {"terms": fin.get("terms"), "anc": fin.get("anc"),
+                                                           "cons": group_cons(fin.get("cons", []))}
+            impl = {k: info["final"][k] for k in ("terms", "anc", "cons")} if "final" in info else None
+        else:
+            fin = m["steps"][-1]
+            mf = {"err": fin["err"]} if "err" in fin else {"terms": fin["terms"], "anc": fin["anc"],
+                                                           "cons": group_cons(fin["cons"]), "valid": fin["valid"]}
+            impl = {k: info["final"][k] for k in ("terms", "anc", "cons", "valid")} if "final" in info else None
+        if impl != mf:
+            ctx.diff("variants", case, impl, mf)
+    elif not spin:
         ms = []
         for s in m["steps"]:
             ms.append({"err": s["err"]} if "err" in s else
@@ -563,12 +773,19 @@ def poly_add(a, b, sign=1):
 
 def process(ctx, cases):
     rng = ctx.rng
-    infos = []
+    infos, flat = [], []
     for c in cases:
-        info = run_impl(c)
+        if "script" in c:
+            # a scenario: one description + one finished object per model; reported with the whole scenario
+            for sc, info in zip(sub_cases(c), run_scenario(c)):
+                sc["report"] = dict(c, failing_model=sc["model"])
+                flat.append(sc); infos.append(info)
+        else:
+            flat.append(c); infos.append(run_impl(c))
+    cases = flat
+    for c, info in zip(cases, infos):
         if "book" in info:
             prepare_probes(c, info, rng)
-        infos.append(info)
     models = common.run_driver([wf_line(c, i) for c, i in zip(cases, infos)])
     # convert_solution
     conv = []
@@ -579,7 +796,7 @@ def process(ctx, cases):
     for (c, line, impl), m in zip(conv, common.run_driver([l for _, l, _ in conv])):
         ctx.traces += 1
         if impl != m:
-            ctx.diff("convert", c, impl, m)
+            ctx.diff("convert", c.get("report", c), impl, m)
     # PCSO penalties through the existing ops (three rounds)
     pc = [(c, i) for c, i in zip(cases, infos) if c["kind"] == "PCSO" and "book" in i]
     r1_lines = [l for c, _ in pc for l in pcso_penalty_lines(c)]
@@ -603,13 +820,15 @@ def process(ctx, cases):
         got = {tuple(k): Fraction(v) for k, v in canon_terms(i["H"], L)}
         ctx.traces += 1
         if want != got or m2.get("anc") != i["H"].num_ancillas:
-            ctx.diff("pcso-pen", c, sorted([[list(k), fs(v)] for k, v in got.items()]),
+            ctx.diff("pcso-pen", c.get("report", c), sorted([[list(k), fs(v)] for k, v in got.items()]),
                      sorted([[list(k), fs(v)] for k, v in want.items()]))
     # per case: comparison + direct oracle
     for c, info, m in zip(cases, infos, models):
         xs, f, feas = semantics(c)
-        nontrivial = (not all(feas.values())) and len(info["states"][-1].get("terms", [])) > len(c["obj"])
-        ctx.case(c, nontrivial)
+        rep = c.get("report", c)
+        last = info["states"][-1] if info.get("states") else info.get("final", {})
+        nontrivial = (not all(feas.values())) and len(last.get("terms", [])) > len(c["obj"])
+        ctx.case({k: v for k, v in c.items() if k != "report"}, nontrivial)
         ctx.traces += 1
         ctx.count("family:" + c["family"]); ctx.count("kind:" + c["kind"]); ctx.count("constraints:%d" % len(c["steps"]))
         for st in c["steps"]:
@@ -617,14 +836,19 @@ def process(ctx, cases):
                                  else ("eq_" if st["eq"] else "") + st["g"]))
         if "book" in info:
             ctx.count("ancillas:%d" % info["H"].num_ancillas)
+        nd = len(ctx.diffs)
         compare(ctx, c, info, m)
+        for d in ctx.diffs[nd:]:
+            d["case"] = rep
         bad, tag = oracle(c, info, ctx)
         ctx.count("oracle:" + tag)
         if bad:
             sig = "C08:" + tag
             if c["family"] == "uncovered" and (tag == "bruteforce-error" or "KeyError" in bad):
                 sig = "C08:uncovered-constraint-variable"
-            ctx.violation(sig, c, bad)
+            if "model" in c:
+                bad = "model %d of the scenario (0 = base, then in order of derivation): %s" % (c["model"], bad)
+            ctx.violation(sig, rep, bad)
 
 def finalize(case):
     """recompute the `big` flag (all weights > max f - min f) from the truth table"""
@@ -640,6 +864,11 @@ FIXED = [
      "steps": [{"t": "logic", "eq": True, "g": "XOR", "ops": [c06.lbl(1), c06.lbl(0), c06.lbl(2)], "lam": "7/2"},
                {"t": "cmp", "rel": "lt", "P": [[[0], "1"], [[1], "1"], [[2], "1"], [[3], "1"], [[], "-3"]], "lt": True,
                 "lo": None, "hi": None, "sup": False, "lam": "4"}], "big": True},
+    # both pairs (0,1) and (2,3) are already replaced by ancillas when the degree-4 term is reduced (reuse, twice)
+    {"family": "deep", "kind": "PCBO", "n": 5, "labels": "int",
+     "obj": [[[0], "1"], [[1], "1"], [[2, 3, 4], "-2"], [[0, 1, 4], "-3"], [[0, 1, 2, 3], "4"]],
+     "steps": [{"t": "cmp", "rel": "le", "P": [[[0], "1"], [[4], "1"], [[], "-1"]], "lt": True, "lo": None, "hi": None,
+                "sup": False, "lam": "9"}], "big": True},
     {"family": "big", "kind": "PCSO", "n": 3, "labels": "int",
      "obj": [[[0, 1], "1"], [[1, 2], "-2"], [[0], "1"]],
      "steps": [{"t": "cmp", "rel": "ge", "P": [[[0], "1"], [[1], "1"], [[2], "1"], [[], "-1"]], "lt": False,
@@ -653,6 +882,8 @@ def check(ctx):
     cases += [gen_case(rng, "big") for _ in range(int(nq * 0.68))]
     cases += [gen_case(rng, "small") for _ in range(int(nq * 0.27))]
     cases += [gen_case(rng, "uncovered") for _ in range(int(nq * 0.05))]
+    cases += [gen_deep(rng) for _ in range(ctx.scale(60, 600))]
+    cases += [gen_scenario(rng) for _ in range(ctx.scale(50, 500))]
     process(ctx, cases)
     if ctx.diffs and not ctx.violations:
         search(ctx)
@@ -685,7 +916,7 @@ def search(ctx):
 
 def replay(ctx, payload):
     c = payload.get("case") or (payload.get("first_difference") or {}).get("case")
-    if not c or "steps" not in c:
+    if not c or ("steps" not in c and "script" not in c):
         ctx.notes.append("replay file has no case; re-running the full check")
         return check(ctx)
     process(ctx, [c])
